@@ -84,6 +84,21 @@ def run(ctx, rep):
         admitted = [g for g in D.guards if not g[2]]
         rep.analysed["guards/lm=%d" % lm] = {"comparisons": len(D.guards),
                                              "admitted_absolute_thresholds": len(admitted)}
+    # "multiplying the reference area by c divides the per-m2 results by c" for the command-line program too: the area
+    # the results are computed with is the one given with -a when given (C19/Q1, re-stated)
+    from . import c19 as _c19
+    from .common import Report as _Report
+    sub19 = _Report("C19")
+    _c19.run(ctx, sub19)
+    q1 = [o for o in sub19.obligations if o.key == "C19/Q1/arearef"]
+    if not q1:
+        rep.violated("C11/cli/arearef/anchor", "the selection of the reference area in main is analysable", why="no C19/Q1/arearef obligation")
+    for o in q1:
+        if o.status == "discharged":
+            rep.discharged("C11/cli/arearef", "the area used by the program is the option value when given: " + o.clause, nontrivial=False)
+        else:
+            rep.violated("C11/cli/arearef", "changing the area given with -a changes the area the per-m2 results are divided by",
+                         construct=o.construct, why=o.why)
     # the DHW renewable fraction is part of the results: its independence of the area and its scale-free guards are
     # decided by the C15 pack (W1 area / W2 degree), re-stated here
     from . import c15
